@@ -5,8 +5,9 @@ import (
 	"context"
 	"encoding/json"
 	"fmt"
+	"runtime"
 	"strings"
-	"sync"
+	"time"
 
 	"github.com/tetratelabs/wazero"
 	"github.com/tetratelabs/wazero/api"
@@ -45,14 +46,16 @@ type snap struct {
 }
 
 type step struct {
-	I    int             `json:"i"`
-	Op   string          `json:"op"`
-	X    int             `json:"x"`
-	Y    int             `json:"y"`
-	Res  json.RawMessage `json:"res"`
-	May  string          `json:"may"`
-	Decl *decl           `json:"decl"`
-	St   snap            `json:"st"`
+	I     int             `json:"i"`
+	Op    string          `json:"op"`
+	X     int             `json:"x"`
+	Y     int             `json:"y"`
+	Res   json.RawMessage `json:"res"`
+	May   string          `json:"may"`
+	Decl  *decl           `json:"decl"`
+	Reexp bool            `json:"reexp"` // the consumer exports its imports again (and imports its function last)
+	Via   int             `json:"via"`   // 0: imports come from the provider; j: from consumer j, which exports its imports again
+	St    snap            `json:"st"`
 }
 
 type behaviour struct {
@@ -63,6 +66,8 @@ type behaviour struct {
 	} `json:"a"`
 	Hist []step `json:"hist"`
 }
+
+var churn [][]uintptr
 
 func isTrap(err error) bool { return err != nil && strings.Contains(err.Error(), "wasm error") }
 
@@ -129,10 +134,18 @@ func replayOne(id int, b *behaviour, engine string) common.Result {
 		}
 		if s.Op == "inst" {
 			d := s.Decl
-			norm += "inst[" + declKey(d) + "];"
-			lastInst = "inst[" + declKey(d) + "];"
+			via := ""
+			if s.Via != 0 {
+				via = ";via-consumer"
+			}
+			norm += "inst[" + declKey(d) + via + "];"
+			lastInst = "inst[" + declKey(d) + via + "];"
 			sh := ug.Shape{Mem: "imp", MemLim: ug.Limits{Min: d.Mem[0], Max: d.Mem[1]}, Tab: "imp", TabLim: ug.Limits{Min: d.Tab[0], Max: d.Tab[1]},
-				TabType: d.TabType, G: "imp", GType: d.GType, GMut: d.GMut, H: "imp", K: true, KMut: d.KMut, Inc: "imp", IncSig: d.IncSig, Start: d.Start, TailCall: true}
+				TabType: d.TabType, G: "imp", GType: d.GType, GMut: d.GMut, H: "imp", K: true, KMut: d.KMut, Inc: "imp", IncSig: d.IncSig, Start: d.Start, TailCall: true,
+				Reexport: s.Reexp, FuncLast: s.Reexp}
+			if s.Via != 0 {
+				sh.From = fmt.Sprintf("b%d", s.Via)
+			}
 			for _, ds := range d.Data {
 				bs := make([]byte, len(ds.Bytes))
 				for i, v := range ds.Bytes {
@@ -148,14 +161,29 @@ func replayOne(id int, b *behaviour, engine string) common.Result {
 			cm := compiled[shKey]
 			var mod api.Module
 			var err error
-			if cm == nil {
-				cm, err = rt.CompileModule(ctx, ug.Build(sh))
-				if err == nil {
-					compiled[shKey] = cm
+			if want != "ok" && len(d.Elem) > 0 {
+				// an instantiation the model expects to fail after its element segments were applied, straight from the bytes: the
+				// runtime owns the compiled code and releases it with the failed instance - what the segments wrote into the shared
+				// table must stay callable. Collect, let the finalizers (which unmap code) run, and re-use the freed heap.
+				mod, err = rt.InstantiateWithConfig(ctx, ug.Build(sh), wazero.NewModuleConfig().WithName(fmt.Sprintf("b%d", s.I)))
+				churn = churn[:0]
+				for i := 0; i < 10; i++ {
+					runtime.GC()
+					time.Sleep(20 * time.Millisecond)
+					for j := 0; j < 20000; j++ {
+						churn = append(churn, []uintptr{^uintptr(0), ^uintptr(0), ^uintptr(0)})
+					}
 				}
-			}
-			if err == nil {
-				mod, err = rt.InstantiateModule(ctx, cm, wazero.NewModuleConfig().WithName(fmt.Sprintf("b%d", s.I)))
+			} else {
+				if cm == nil {
+					cm, err = rt.CompileModule(ctx, ug.Build(sh))
+					if err == nil {
+						compiled[shKey] = cm
+					}
+				}
+				if err == nil {
+					mod, err = rt.InstantiateModule(ctx, cm, wazero.NewModuleConfig().WithName(fmt.Sprintf("b%d", s.I)))
+				}
 			}
 			if err != nil {
 				got = "error"
@@ -282,30 +310,44 @@ func Main(args []string) {
 	if err != nil {
 		common.Fatalf("read: %v", err)
 	}
-	results := make([]common.Result, len(lines))
-	var wg sync.WaitGroup
-	sem := make(chan struct{}, 12)
-	for id, l := range lines {
-		wg.Add(1)
-		sem <- struct{}{}
-		go func(id int, l json.RawMessage) {
-			defer wg.Done()
-			defer func() { <-sem }()
+	// supervised children: a process fault (e.g. a call through a dangling table entry) is attributed to the history
+	results := common.Supervise("link-child", nil, lines, 180*time.Second, 12)
+	for i := range results {
+		r := &results[i]
+		if !r.OK && (r.Key == "crash" || r.Key == "hang") {
 			var b behaviour
-			if err := json.Unmarshal(l, &b); err != nil {
-				common.Fatalf("behaviour %d: %v", id, err)
+			_ = json.Unmarshal(lines[i], &b)
+			norm := ""
+			for _, st := range b.Hist {
+				if st.Op == "inst" {
+					norm += "inst[" + declKey(st.Decl) + "];"
+				} else {
+					norm += st.Op + ";"
+				}
 			}
-			r := replayOne(id, &b, "interpreter")
-			r2 := replayOne(id, &b, "compiler")
-			for _, f := range r2.Fails {
-				r.AddFail(f.Key, f.Msg)
-			}
-			results[id] = r
-		}(id, l)
-	}
-	wg.Wait()
-	for _, r := range results {
-		common.Emit(r)
+			k, msg := r.Key, r.Msg
+			*r = common.Result{ID: r.ID}
+			r.AddFail(fmt.Sprintf("%s#process-%s", norm, k), "history "+norm+": "+msg)
+		}
+		common.Emit(*r)
 	}
 	common.Flush()
+}
+
+// Child is `driver link-child`.
+func Child(args []string) {
+	common.ChildLoop(func(id int, raw json.RawMessage) common.Result {
+		var b behaviour
+		if err := json.Unmarshal(raw, &b); err != nil {
+			r := common.Result{ID: id}
+			r.AddFail("infra", err.Error())
+			return r
+		}
+		r := replayOne(id, &b, "interpreter")
+		r2 := replayOne(id, &b, "compiler")
+		for _, f := range r2.Fails {
+			r.AddFail(f.Key, f.Msg)
+		}
+		return r
+	})
 }
